@@ -175,7 +175,7 @@ def main():
     chk.encode(ns.LongitudinalElasticModulusPhononContribution,
                ns.OffDiagonalElasticModulusPhononContribution, ns.average_over_modes)
     Z.reset_log()
-    shapes = [(2, 6, 2, 1), (3, 6, 2, 1)] if tier == "quick" else [(1, 6, 2, 1), (2, 3, 2, 1), (2, 6, 2, 1), (3, 6, 3, 2), (4, 12, 2, 1)]
+    shapes = [(2, 6, 2, 1), (3, 6, 2, 1), (1, 6, 2, 1), (2, 6, 1, 1)] if tier == "quick" else [(1, 6, 2, 1), (2, 3, 2, 1), (2, 6, 2, 1), (3, 6, 3, 2), (4, 12, 2, 1), (2, 6, 1, 1)]
     for nq, np_, nv, nT in shapes:
         run_shape(chk, ns, nq, np_, nv, nT)
     run_shape(chk, ns, 2, 3, 2, 1, tgrid="no-T0")
